@@ -47,7 +47,23 @@ ALL_OPS = ARITH_OPS + UNARY_OPS + ('mutate', 'rebind')
 SCALARS = [(-2, 1), (-1, 1), (1, 1), (2, 1), (1, 2), (-1, 2)]
 
 
-def _apply(op, l, r):
+def _apply(op, l, r, spelling=None):
+    """spelling: None = binary operator; 'aug' = augmented assignment (x = l; x += r: the name is re-bound, the object
+    that was the left operand -- and everything sharing its arrays -- must be left alone); 'dunder' = explicit method call;
+    'reflected' (scalars and arrays on the left of a commutative operator)."""
+    if spelling == 'aug':
+        x = l
+        if op == 'add':
+            x += r
+        elif op == 'sub':
+            x -= r
+        elif op == 'mul':
+            x *= r
+        else:
+            x /= r
+        return x
+    if spelling == 'dunder':
+        return getattr(l, {'add': '__add__', 'sub': '__sub__', 'mul': '__mul__', 'div': '__truediv__'}[op])(r)
     if op == 'add':
         return l + r
     if op == 'sub':
@@ -148,7 +164,7 @@ def arith_observe(case):
         before = _digest(left)
         rbefore = _digest(right) if case['rk'] == 'ds' else (right.tobytes() if case['rk'] == 'array' else right)
         with np.errstate(all='ignore'):
-            res = _apply(case['op'], left, right)
+            res = _apply(case['op'], left, right, case.get('spelling'))
         if _digest(left) != before:
             return None, 'left operand modified'
         rafter = _digest(right) if case['rk'] == 'ds' else (right.tobytes() if case['rk'] == 'array' else right)
@@ -512,6 +528,7 @@ def _arith_cases_of_state(st, rng):
         c['rbins'] = rng.random() < 0.6
     if n > 1:
         out.append(dict(out[rng.randrange(len(out))], layout=rng.choice(LAYOUTS)))
+    out.append(dict(out[rng.randrange(len(out))], spelling=rng.choice(['aug', 'aug', 'dunder'])))
     return out
 
 
@@ -545,7 +562,7 @@ def _random_arith_case(rng):
             c[key] = [fr.numerator, fr.denominator]
     return dict(kind='arith', op=op, rk=rk, shape=shape, scalar_ds=(not shape and rng.random() < 0.5), cells=cells,
                 dtype=rng.choice(['int', 'float']), bins=rng.choice(['edges', 'centres', 'none']), rbins=rng.random() < 0.6,
-                layout=rng.choice((None, None) + LAYOUTS))
+                layout=rng.choice((None, None) + LAYOUTS), spelling=rng.choice([None, None, 'aug', 'dunder']))
 
 
 _HIST_RE = re.compile(r'/\\ hist = (.*?)\n/\\ ', re.S)
@@ -736,7 +753,10 @@ def run_c08(ctx):
     def add_arith(case, exp=None):
         obs, problem = arith_observe(case)
         if problem:
-            how = 'raised' if problem.startswith('raised') else 'malformed-result'
+            how = ('raised' if problem.startswith('raised') else 'operand-modified' if 'operand modified' in problem
+                   else 'malformed-result')
+            if case.get('spelling'):
+                how += '/' + case['spelling']
             ctx.violation('C08/%s/%s-%s' % (how, case['op'], case['rk']), problem, case, module='conf_dataset')
             return
         cid = len(abatch) + 1
